@@ -1,6 +1,45 @@
 (* C25 — grammar imports resolve rules in the documented order. *)
 From TxV Require Import Core.Base Model.Imports Proofs.ImportsProofs.
 
-Example C25_placeholder : rsplit1 [97;46;98]%N = Some ([97], [98])%N.
-Proof. vm_compute. reflexivity. Qed.
-Print Assumptions C25_placeholder.
+(* Unqualified names (metamodel.__getitem__, any meta-model state, any number of imports):
+   the rule of the current namespace if it has one; otherwise the first namespace of the
+   current namespace's import list, in import order, that has one. *)
+Theorem C25_unqualified : forall s cur name c, has_dot name = false ->
+  (lookup s cur name = Some c <->
+   lookup_in s cur name = Some c \/
+   (lookup_in s cur name = None /\
+    exists pre i post, imports_of s cur = pre ++ i :: post
+                       /\ (forall j, In j pre -> lookup_in s j name = None)
+                       /\ lookup_in s i name = Some c)).
+Proof. exact lookup_unqualified. Qed.
+Print Assumptions C25_unqualified.
+
+Theorem C25_unqualified_none : forall s cur name, has_dot name = false ->
+  (lookup s cur name = None <->
+   lookup_in s cur name = None /\ forall j, In j (imports_of s cur) -> lookup_in s j name = None).
+Proof. exact lookup_unqualified_none. Qed.
+Print Assumptions C25_unqualified_none.
+
+(* A qualified name selects the named namespace's rule. *)
+Theorem C25_qualified : forall s cur q n, has_dot n = false ->
+  lookup s cur (q ++ DOT :: n) = lookup_in s q n.
+Proof. exact lookup_qualified. Qed.
+Print Assumptions C25_qualified.
+
+(* Known finding: in a cycle of imports the imported file's second pass runs before the
+   importing file has any rule.  (1) a imports b; b imports a, c: b's X silently becomes c.X
+   although a.X is the first import in order that defines X. *)
+Theorem C25_cycles_refuted :
+  serr (load_main ex_silent [97]%N) = None /\
+  exists l, In l (links (load_main ex_silent [97]%N)) /\ l_ns l = [98]%N /\ l_name l = [88]%N /\
+            option_map cls_key (l_target l) = Some ([99], [88])%N /\
+            spec_resolve ex_silent (l_ns l) (l_name l) = Some ([97], [88])%N.
+Proof. exact cycle_silent_wrong. Qed.
+Print Assumptions C25_cycles_refuted.
+
+(* (2) a imports b; b imports a and refers to a's X: the load fails with 'Unexisting rule'. *)
+Theorem C25_cycles_unexisting_refuted :
+  serr (load_main ex_unexisting [97]%N) = Some (EUnexisting [98] [[88]])%N /\
+  spec_resolve ex_unexisting [98]%N [88]%N = Some ([97], [88])%N.
+Proof. exact cycle_unexisting_fails. Qed.
+Print Assumptions C25_cycles_unexisting_refuted.
